@@ -293,3 +293,44 @@ def r06_h(ctx):
     if n == 0:
         raise AnalysisError('no look-ahead call found in the reader')
     return rr
+
+
+def r06_i(ctx):
+    """format strings are constants"""
+    repo = ctx.repo
+    cg = callgraph.graph(ctx)
+    entry = repo.need_func('__init__.TexSoup')
+    rr = RuleResult('R06.i', 'every %-format applied in parse-reachable code has a constant format string: text taken from '
+                    'the input never becomes part of a format (a stray % would raise ValueError/TypeError)', floor=3)
+    for fd in sorted(cg.reachable([entry]), key=lambda f: f.fq):
+        if fd.module.name not in ('reader', 'tokens', 'category', 'tex', '__init__', 'utils'):
+            continue
+        for n in ast.walk(fd.node):
+            if isinstance(n, ast.BinOp) and isinstance(n.op, ast.Mod):
+                from .model import resolve_locals
+                left = n.left
+                # integer modulo is not formatting
+                if isinstance(left, ast.Constant) and not isinstance(left.value, str):
+                    continue
+                is_const = isinstance(left, ast.Constant) and isinstance(left.value, str)
+                if not is_const and isinstance(left, ast.Name):
+                    # a local built only from constants (single assignment, no augmented assignment)
+                    aug = any(isinstance(x, ast.AugAssign) and isinstance(x.target, ast.Name) and x.target.id == left.id
+                              for x in ast.walk(fd.node))
+                    r = resolve_locals(fd.node, left)
+                    is_const = not aug and all(isinstance(x, (ast.Constant, ast.BinOp, ast.Add, ast.Load)) for x in ast.walk(r))
+                    if not is_const:
+                        try:
+                            is_const = isinstance(Folder(repo, fd.module).ev(left), str) and not aug
+                        except Unfoldable:
+                            pass
+                looks_numeric = isinstance(left, (ast.Name, ast.Attribute, ast.Call)) and not is_const and \
+                    not any(isinstance(x, ast.Constant) and isinstance(x.value, str) for x in ast.walk(n.right))
+                if looks_numeric and isinstance(n.right, (ast.Constant,)) and isinstance(n.right.value, int):
+                    continue
+                rr.ob(is_const, {'function': fd.fq, 'format': norm(left)[:50]})
+                if not is_const:
+                    rr.fail(Finding('R06.i', fd.module.name, fd.qual, n, 'the format string %s is built at run time (it can '
+                                    'contain text from the input): a %% in it raises ValueError / TypeError instead of the '
+                                    'diagnostic error' % norm(left)[:40], line=n.lineno))
+    return rr
